@@ -37,15 +37,17 @@ type c14E2ECases struct {
 }
 
 type c14E2EOut struct {
-	ID  int    `json:"id"`
-	Err string `json:"err,omitempty"`
-	R1  string `json:"r1,omitempty"`
+	ID   int     `json:"id"`
+	Err  string  `json:"err,omitempty"`
+	R1   string  `json:"r1,omitempty"`
+	Cnt  []int32 `json:"cnt,omitempty"` // parallel mode: how many of the reps copies of each event reached Do
+	Reps int     `json:"reps,omitempty"`
 }
 
 // shared recorder of the running pipeline: hits[action index][event offset]
 var (
 	c14E2EMu   sync.Mutex
-	c14E2EHits [][]bool
+	c14E2EHits [][]int32
 )
 
 type c14E2EConfig struct{}
@@ -59,7 +61,7 @@ func (p *c14E2EPlugin) Stop() {}
 func (p *c14E2EPlugin) Do(e *pipeline.Event) pipeline.ActionResult {
 	c14E2EMu.Lock()
 	if p.index < len(c14E2EHits) && int(e.Offset) >= 0 && int(e.Offset) < len(c14E2EHits[p.index]) {
-		c14E2EHits[p.index][e.Offset] = true
+		c14E2EHits[p.index][e.Offset]++
 	}
 	c14E2EMu.Unlock()
 	return pipeline.ActionPass
@@ -69,7 +71,10 @@ func c14E2EFactory() (pipeline.AnyPlugin, pipeline.AnyConfig) {
 	return &c14E2EPlugin{}, &c14E2EConfig{}
 }
 
-func c14E2ERunChunk(rules []*c14E2ERule, evs []string) (outs []*c14E2EOut, err error) {
+// reps == 0: one processor, every event once (sequential end-to-end replay).
+// reps > 0:  parallel pipeline (GOMAXPROCS*2 real processors sharing the checkers), every event sent reps
+//            times, each copy from its own source so that the copies are processed concurrently.
+func c14E2ERunChunk(rules []*c14E2ERule, evs []string, reps int) (outs []*c14E2EOut, err error) {
 	defer func() {
 		if pv := recover(); pv != nil {
 			err = fmt.Errorf("panic: %v", pv)
@@ -87,27 +92,39 @@ func c14E2ERunChunk(rules []*c14E2ERule, evs []string) (outs []*c14E2EOut, err e
 	if jerr != nil {
 		return nil, fmt.Errorf("harness: bad actions json: %w", jerr)
 	}
-	p, input, output := test.NewPipelineMock(nil, "passive", "name")
+	opts := []string{"passive", "name"}
+	copies := 1
+	if reps > 0 {
+		opts = append(opts, "parallel")
+		copies = reps
+	}
+	p, input, output := test.NewPipelineMock(nil, opts...)
 	if serr := fd.SetupActions(p, fd.DefaultPluginRegistry, aj, nil); serr != nil {
 		return nil, fmt.Errorf("ctor: %w", serr)
 	}
 	c14E2EMu.Lock()
 	c14E2EHits = make([][]bool, len(rules))
 	for i := range c14E2EHits {
-		c14E2EHits[i] = make([]bool, len(evs))
+		c14E2EHits[i] = make([]int32, len(evs))
 	}
 	c14E2EMu.Unlock()
-	left := atomic.NewInt32(int32(len(evs)))
+	left := atomic.NewInt32(int32(len(evs) * copies))
 	output.SetOutFn(func(*pipeline.Event) { left.Dec() })
 	p.Start()
-	for i, e := range evs {
-		input.In(0, "verif_c14", test.NewOffset(int64(i)), []byte(e))
+	for c := 0; c < copies; c++ {
+		for i, e := range evs {
+			src := pipeline.SourceID(0)
+			if reps > 0 {
+				src = pipeline.SourceID(c*len(evs) + i + 1)
+			}
+			input.In(src, "verif_c14", test.NewOffset(int64(i)), []byte(e))
+		}
 	}
 	t0 := time.Now()
 	for left.Load() > 0 {
 		if time.Since(t0) > 60*time.Second {
 			p.Stop()
-			return nil, fmt.Errorf("harness: %d of %d events did not reach the output within 60s", left.Load(), len(evs))
+			return nil, fmt.Errorf("harness: %d of %d events did not reach the output within 60s", left.Load(), len(evs)*copies)
 		}
 		time.Sleep(time.Millisecond)
 	}
@@ -118,11 +135,15 @@ func c14E2ERunChunk(rules []*c14E2ERule, evs []string) (outs []*c14E2EOut, err e
 		s := make([]byte, len(evs))
 		for j, h := range c14E2EHits[i] {
 			s[j] = '0'
-			if h {
+			if h > 0 {
 				s[j] = '1'
 			}
 		}
-		outs = append(outs, &c14E2EOut{ID: r.ID, R1: string(s)})
+		o := &c14E2EOut{ID: r.ID, R1: string(s)}
+		if reps > 0 {
+			o.Cnt, o.Reps = append([]int32(nil), c14E2EHits[i]...), reps
+		}
+		outs = append(outs, o)
 	}
 	c14E2EHits = nil
 	return outs, nil
@@ -141,6 +162,7 @@ func TestVerifC14E2E(t *testing.T) {
 	if err := json.Unmarshal(raw, &cs); err != nil {
 		t.Fatal(err)
 	}
+	par := os.Getenv("VERIF_C14_E2E_PAR") != ""
 	fd.DefaultPluginRegistry.RegisterAction(&pipeline.PluginStaticInfo{Type: "verif_c14", Factory: c14E2EFactory})
 
 	f, err := os.Open(rulesPath)
@@ -162,7 +184,12 @@ func TestVerifC14E2E(t *testing.T) {
 		if len(chunk) == 0 {
 			return
 		}
-		outs, err := c14E2ERunChunk(chunk, cs.Events[chunk[0].Set])
+		evs := cs.Events[chunk[0].Set]
+		reps := 0
+		if par {
+			reps = 2000/len(evs) + 2
+		}
+		outs, err := c14E2ERunChunk(chunk, evs, reps)
 		if err != nil {
 			outs = nil
 			for _, r := range chunk {
